@@ -4,7 +4,7 @@
     order they were received, whatever their handlers await; with spawning enabled, every call still gets its reply."
 
    A burst is a list of calls in arrival order.  A call is INLINE when it is a method call (&self or &mut self) to an
-   interface whose spawn flag is off.  The events of one handler execution are  S c, O c 0 .. O c (n-1), E c, R c
+   interface whose spawn flag is off.  The events of one handler execution are  S c, O c 0 .. O c (n-1), E c, R c (R c only if the call wants a reply)
    (start, completion of each of its n operations, end, reply).  The property: at every moment, under every schedule,
    the sub-log of the events of inline calls is a prefix of the concatenation, in arrival order, of their complete
    executions — i.e. executions are sequential (nothing of another inline call between S c and R c) and in arrival order. *)
@@ -16,8 +16,9 @@ Definition inline (c : call) : bool := negb (c_spawn c) && is_method (c_kind c).
 Definition ev_call (e : ev) : nat := match e with EvS c | EvO c _ | EvE c | EvR c => c end.
 
 Definition op_events (c n : nat) : list ev := map (EvO c) (seq 0 n).
+Definition wants_reply (c : call) : bool := match c_kind c with KUnknown => true | _ => negb (c_noreply c) end.
 Definition handler_events (c : call) : list ev :=
-  [EvS (c_id c)] ++ op_events (c_id c) (length (c_script c)) ++ [EvE (c_id c); EvR (c_id c)].
+  [EvS (c_id c)] ++ op_events (c_id c) (length (c_script c)) ++ [EvE (c_id c)] ++ (if wants_reply c then [EvR (c_id c)] else []).
 
 Definition sequential_order (calls : list call) : list ev := flat_map handler_events (filter inline calls).
 
@@ -54,9 +55,9 @@ Fixpoint count_ev (e : ev) (l : list ev) : nat :=
   | x :: r => (if ev_eqb x e then 1 else 0) + count_ev e r
   end.
 
-(* every call got exactly one reply *)
+(* every call got exactly one reply — none if it carries NO_REPLY_EXPECTED *)
 Definition replies_ok (calls : list call) (l : list ev) : bool :=
-  forallb (fun c => Nat.eqb (count_ev (EvR (c_id c)) l) 1) calls.
+  forallb (fun c => Nat.eqb (count_ev (EvR (c_id c)) l) (if wants_reply c then 1 else 0)) calls.
 
 (* a finished run: everything of the inline calls happened *)
 Definition order_complete (calls : list call) (l : list ev) : bool :=
